@@ -147,13 +147,25 @@ def make_candidate(cr, klass, parent_hash, now_holder):
             b = cs.block_by_hash[b.previous_block_hash]
         return None
     if klass == "other_fork_output":
-        for h2, u2 in t.own.items():
-            if h2 == parent_hash:
+        # an output that is unspent at some other block but not at the parent; other blocks are tried in a random order,
+        # those that had arrived before the parent (the heads of that time) first half of the time
+        order_ = list(t.blocks)
+        pos_ = {b.hash(): n for n, b in enumerate(order_)}
+        earlier = [b for b in order_ if pos_[b.hash()] < pos_.get(parent_hash, 0)]
+        rng.shuffle(order_)
+        if earlier and rng.random() < 0.5:
+            earlier.sort(key=lambda b: -b.height)
+            order_ = earlier + order_
+        for b2 in order_:
+            h2 = b2.hash()
+            if h2 == parent_hash or h2 not in t.own:
                 continue
-            for r, o in u2.items():
-                if r not in utxo and o.public_key.public_key in keys.pks:
-                    bad = chain.make_tx(keys, u2, [r], [(o.value, 0)])
-                    return cr.craft(parent_hash, others=[bad]), now
+            u2 = t.own[h2]
+            cands_ = [(r, o) for r, o in u2.items() if r not in utxo and o.public_key.public_key in keys.pks and o.value > 0]
+            if cands_:
+                r, o = rng.choice(cands_)
+                bad = chain.make_tx(keys, u2, [r], [(o.value, 0)])
+                return cr.craft(parent_hash, others=[bad]), now
         return None
     if klass == "dup_ref_in_tx":
         sp = t.spendable(parent_hash)
@@ -618,6 +630,16 @@ def run_ledger(ctx, focus, res=None):
                 at_boundary = [b for b in tree.blocks if (b.height + 1) % I == 0]
                 if at_boundary:
                     parent_hash = rng.choice(at_boundary).hash()
+            if klass in ("other_fork_output", "spent_on_branch", "missing_output", "valid", "valid_multi") and rng.random() < 0.6:
+                # a parent that is not on the head's chain: its ledger state was computed while another block was the head
+                on_head = set()
+                h_ = tree.cs.current_chain_hash
+                while h_ in tree.cs.block_by_hash:
+                    on_head.add(h_)
+                    h_ = tree.cs.block_by_hash[h_].previous_block_hash
+                side = [b for b in tree.blocks if b.hash() not in on_head]
+                if side:
+                    parent_hash = rng.choice(side).hash()
             if klass.startswith("reward_") and rng.random() < (1.0 if klass == "reward_prev_era" else 0.4):
                 era_last = [b for b in tree.blocks if chain.subsidy(b.height) > chain.subsidy(b.height + 1)]
                 if era_last:
